@@ -31,16 +31,19 @@ static int text_may_spawn(const unsigned char *d, size_t n)
     return 0;
 }
 
+static char tmpnames[32][320]; static int ntmpnames;
+static int bigdir;
 static void exec_c11(const plan_t *p)
 {
     uint32_t base_serial = 0;
     size_t base_live = 0;
     int inited = 0, may_spawn = 0, cycle = 0, cycle_from = 0;
-    uint64_t first_digest = 0;
+    uint64_t first_digest = 0, first_ops = 0, cycle_ops = 0;
     int first_count = -1;
     conf_reset_mirror(); conf_tree_reset();
-    simfs_add_dir("/cfg"); simfs_add_dir("/cfg/sub"); simfs_add_dir("/cfg/d"); simfs_set_cwd("/cfg");
-    simfs_add_file("/cfg/d/one", "1", 1, 0644); simfs_add_file("/cfg/d/two", "2", 1, 0644); simfs_add_dir("/cfg/d/dir");
+    ntmpnames = 0;
+    simfs_add_dir("/cfg"); simfs_add_dir("/cfg/sub"); simfs_set_cwd("/cfg");
+    conf_fill_dir(p);
     simfs_set_mkstemp_mode((int)plan_get(p, "mkstemp.mode", 0600));
     conf_set_index_checks(1);
     setenv("HOME", "/home/u", 1); setenv("V1", "val-one", 1); setenv("EMPTY", "", 1);
@@ -50,12 +53,23 @@ static void exec_c11(const plan_t *p)
         const char *k = o->kind;
         R.cur_op = o; R.cur_op_index = i; R.op_steps = 0;
         sa_set_tag(i + 1);
+        if (strcmp(k, "init") && strcmp(k, "free")) {
+            /* digest of what this cycle is given, so that "repeats the first cycle" is decided from the plan as executed */
+            uint64_t h = cycle_ops;
+            for (const char *q = k; *q; q++) { h ^= (unsigned char)*q; h *= 0x100000001b3ULL; }
+            for (int q = 0; q < o->na; q++) { h ^= (uint64_t)o->a[q]; h *= 0x100000001b3ULL; }
+            for (size_t q = 0; q < (o->has_s ? o->slen : 0); q++) { h ^= o->s[q]; h *= 0x100000001b3ULL; }
+            h ^= 0xff; h *= 0x100000001b3ULL;
+            for (size_t q = 0; q < (o->has_t ? o->tlen : 0); q++) { h ^= o->t[q]; h *= 0x100000001b3ULL; }
+            for (int q = 0; q < o->nf; q++) { h ^= (uint64_t)o->f[q]; h *= 0x100000001b3ULL; }
+            cycle_ops = h;
+        }
         if (!strcmp(k, "init")) {
             if (inited) continue;
             base_serial = sa_serial(); base_live = sa_live_count();
             conf_reset_mirror();
             spifconf_init_subsystem();
-            inited = 1; cycle++; cycle_from = conf_trace_count();
+            inited = 1; cycle++; cycle_from = conf_trace_count(); cycle_ops = 1469598103934665603ULL;
             tr_printf("init cycle %d", cycle);
         } else if (!strcmp(k, "free")) {
             if (!inited) continue;
@@ -74,7 +88,8 @@ static void exec_c11(const plan_t *p)
             if (o->a[0]) {              /* this cycle repeated the first one: same input, same handler trace */
                 uint64_t d = conf_trace_digest(cycle_from);
                 int cnt = conf_trace_count() - cycle_from;
-                if (first_count < 0) { first_digest = d; first_count = cnt; }
+                if (first_count < 0) { first_digest = d; first_count = cnt; first_ops = cycle_ops; }
+                else if (cycle_ops != first_ops) probe_hit("cycle_not_a_repeat_after_shrinking");     /* only identical input promises an identical trace */
                 else {
                     probe_hit("repeated_cycle_compared");
                     if (cnt != first_count || d != first_digest) sim_fail("MISMATCH(cycle-trace)", "cycle %d repeated the input of the first cycle but the handlers saw a different call trace (%d calls vs %d)", cycle, cnt, first_count);
@@ -128,7 +143,7 @@ static void exec_c11(const plan_t *p)
             sim_free(file); if (dir) sim_free(dir); if (pl) sim_free(pl);
         } else if (!strcmp(k, "tempfile") && o->has_s) {
             char *tmpl = sim_malloc(300);
-            int fd, reused0 = simfs_tempfile_name_reused, bad0 = simfs_tempfile_bad_mode;
+            int fd, reused0 = simfs_tempfile_name_reused, bad0 = simfs_tempfile_bad_mode, made0 = simfs_tempfiles_created;
             snprintf(tmpl, 300, "%.*s", (int)(o->slen < 200 ? o->slen : 200), (const char *)o->s);
             for (char *q = tmpl; *q; q++) if (*q == '/') *q = '_';
             fd = spiftool_temp_file((spif_charptr_t)tmpl, (size_t)(o->a[0] > 0 && o->a[0] <= 300 ? o->a[0] : 300));
@@ -138,6 +153,20 @@ static void exec_c11(const plan_t *p)
                 if (simfs_fd_mode(fd) != 0600) sim_fail("INVARIANT(tempfile-mode)", "temporary file has mode %o when spiftool_temp_file returns", simfs_fd_mode(fd));
                 if (simfs_tempfile_bad_mode != bad0) sim_fail("INVARIANT(tempfile-mode)", "temporary file was created accessible to group/others (umask not restricted while creating it)");
                 if (simfs_tempfile_name_reused != reused0) sim_fail("INVARIANT(tempfile-unique)", "temporary file name was used before");
+                /* the name handed back is the file that was created exclusively during this call, and no earlier call returned it */
+                if (simfs_tempfiles_created != made0 + 1) sim_fail("INVARIANT(tempfile-unique)", "%d files were created exclusively during the call", simfs_tempfiles_created - made0);
+                {
+                    /* the caller's buffer receives the created name -- all of it when it fits in len bytes, else a NUL-terminated prefix */
+                    const char *made = simfs_last_temp_name();
+                    size_t room = (size_t)(o->a[0] > 0 && o->a[0] <= 300 ? o->a[0] : 300), ml = strlen(made), tl = strlen(tmpl);
+                    if (!simfs_is_temp(made)) sim_fail("INVARIANT(tempfile-unique)", "the created file \"%.80s\" is gone when the call returns", made);
+                    if (ml < room ? strcmp(tmpl, made) != 0 : (tl >= room || strncmp(tmpl, made, tl) != 0))
+                        sim_fail("INVARIANT(tempfile-unique)", "the returned name \"%.80s\" is not the file that was created (\"%.80s\", buffer of %zu)", tmpl, made, room);
+                    if (ml < room) {
+                        for (int q = 0; q < ntmpnames; q++) if (!strcmp(tmpnames[q], tmpl)) sim_fail("INVARIANT(tempfile-unique)", "the name \"%.80s\" was returned by an earlier call", tmpl);
+                        if (ntmpnames < 32) snprintf(tmpnames[ntmpnames++], sizeof(tmpnames[0]), "%s", tmpl);
+                    }
+                }
                 sim_close(fd);
             }
             sim_free(tmpl);
@@ -209,7 +238,7 @@ static void gen_conf_file(plan_t *p, rng_t *r, const char *name, int allow_exec,
             else if (c < 86) add("v $V1 ${HOME} $(EMPTY) $NOSUCH ~ ~/x \\t\\n \n");
             else if (c < 88) add("%%random(a b c d)\n");
             else if (c < 90) add("%%version() %%appname()\n");
-            else if (c < 92) add("%%dirscan(/cfg/d)\n");
+            else if (c < 92 || (bigdir && c < 97)) add("%s%%dirscan(/cfg/d)\n", rng_chance(r, 1, 3) ? "x " : "");
             else if (c < 94 && allow_exec) add(rng_chance(r, 1, 2) ? "%%exec(echo hello   world)\n" : "x `echo back quoted` y\n");
             else if (c < 95 && allow_exec && level == 0) add("%%preproc cat\n");      /* (re-reading a self-including file doubles the recursion at every level) */
             else if (c < 97) add("trailing backslash \\\n");
@@ -237,6 +266,13 @@ static void gen_c11(plan_t *p, rng_t *r)
     plan_knob(p, "mkstemp.mode", rng_chance(r, 1, 2) ? 0600 : 0666);
     plan_knob(p, "tmpdir", rng_chance(r, 1, 3));
     plan_knob(p, "budget", 3000000);       /* a self-including file legitimately recurses 255 levels deep */
+    if (rng_chance(r, 1, 10)) {
+        /* a directory whose listing is as long as the line buffer, give or take a few bytes */
+        static const int nls[] = { 255, 255, 254, 200, 128, 100 };
+        plan_knob(p, "dir.total", rng_chance(r, 1, 3) ? 20480 : rng_chance(r, 1, 8) ? 41000 : rng_range(r, 20480 - 6, 20480 + 6));
+        plan_knob(p, "dir.namelen", nls[rng_below(r, 6)]);
+        bigdir = 1;
+    } else bigdir = 0;
     for (int c = 0; c < ncycles && p->nops < PLAN_MAXOPS - 40; c++) {
         plan_op(p, 0, "init", 0);
         if (repeat && c > 0) {
